@@ -37,7 +37,7 @@ RULE = (
     "hash of the assembled document string."
 )
 ASSUMPTIONS = [
-    "bytes inputs are valid UTF-8 and str inputs contain no lone surrogates (other encodings are outside the quantifier)",
+    "bytes inputs are UTF-8 or (render_dependencies part) latin-1 encodings of the document; str inputs contain no lone surrogates",
     "upper/mixed-case end tags and end tags whose inner whitespace is not HTML whitespace (VT, NBSP, other Unicode "
     "spaces) may be read either as tags or as text (docs are silent): every consistent reading is accepted",
     "only marker comments exactly as emitted for live component classes are markers; strings that merely resemble "
@@ -449,10 +449,18 @@ def check_rd(segs, col=None, combos=None):
             if col is not None and mode == "document" and J:
                 col.count("js_tags_nonempty")
             exp = expected_outputs(doc, jd.toks, mode, J, C)
-        for kind in KINDS:
+        # bytes in an 8-bit encoding (what a response with charset=latin-1 carries): not valid UTF-8, every byte must survive
+        try:
+            latin = doc.encode("latin-1")
+            latin = latin if not doc.isascii() else None
+        except UnicodeEncodeError:
+            latin = None
+        if latin is not None and jd.ood is None and not ((J or "") + (C or "")).isascii():
+            latin = None  # the library inserts its tags as UTF-8 whatever the document's encoding is: not comparable as latin-1
+        for kind in KINDS + (("lbytes",) if latin is not None else ()):
             if combos is not None and [kind, mode] not in combos:
                 continue
-            inp = doc if kind == "str" else doc.encode("utf-8") if kind == "bytes" else mark_safe(doc)
+            inp = doc if kind == "str" else doc.encode("utf-8") if kind == "bytes" else latin if kind == "lbytes" else mark_safe(doc)
             if col is not None:
                 col.count("render_dependencies_calls")
             out, e = guarded(render_dependencies, inp, type=mode)
@@ -462,11 +470,15 @@ def check_rd(segs, col=None, combos=None):
             if e is not None:
                 fails.append(("%s raised %r on %s" % (where, e, _short(doc)), "%s:exception:%s" % (mode, exc_bucket(e))))
                 continue
-            want_type = {"str": str, "bytes": bytes, "safe": SafeString}[kind]
+            want_type = {"str": str, "bytes": bytes, "lbytes": bytes, "safe": SafeString}[kind]
             if type(out) is not want_type:
                 fails.append(("%s returned %s, input type %s; doc %s" % (where, type(out).__name__, want_type.__name__, _short(doc)), "%s:type-not-preserved:%s" % (mode, kind)))
                 continue
-            if kind == "bytes":
+            if kind == "lbytes":
+                got = out.decode("latin-1")  # the inserted tags are ASCII
+                if col is not None:
+                    col.count("render_dependencies_calls_on_non_utf8_bytes")
+            elif kind == "bytes":
                 got, e2 = guarded(out.decode, "utf-8")
                 if e2 is not None:
                     fails.append(("%s returned bytes that are not UTF-8 (%r); doc %s" % (where, e2, _short(doc)), "%s:bytes-not-preserved" % mode))
